@@ -5,7 +5,7 @@ import z3
 from .values import *
 from .explore import explore, check_valid, Stats, model_of
 from .world import World, Spec
-from .post import Snapshot, inv_obligations
+from .post import Snapshot, inv_obligations, Implies
 from .models.fmt_m import text_of, DecSeg
 
 class StepCtx:
@@ -179,4 +179,27 @@ def j_no_panic(ctx):
 
 @judge('inv')
 def j_inv(ctx):
-    return [(cid, 'Inv after the step: ' + d, t) for cid, d, t in inv_obligations(ctx.post)]
+    obs = [(cid, 'Inv after the step: ' + d, t) for cid, d, t in inv_obligations(ctx.post)]
+    obs += conn_identity(ctx)
+    return obs
+
+def conn_identity(ctx):
+    """I9: an authenticated connection speaks under the identity of the user it owns: its source prefix is nick!~user@host of its own nick
+    and equals the source recorded for that user"""
+    from .world import fld
+    M, prog = ctx.M, ctx.prog
+    try:
+        us = fld(prog, ctx.conn['cell'].v, 'user_state')
+        auth = fld(prog, us, 'authenticated'); nick = fld(prog, us, 'nick'); name = fld(prog, us, 'name'); src = fld(prog, us, 'source'); host = fld(prog, us, 'hostname')
+    except Exception:
+        return []
+    if isinstance(auth, bool) and not auth: return []
+    if not (isinstance(nick.variant, int) and nick.variant == 1 and isinstance(name.variant, int) and name.variant == 1): return []
+    nb, ub, sb, hb = (M.rdd(x) if isinstance(x, (Ref,)) else x for x in (nick.fields[0], name.fields[0], src, host))
+    try:
+        want = list(nb.data) + list(b'!~') + list(ub.data) + list(b'@') + list(hb.data)
+        t = M.values_equal(src, Str(want))
+    except Exception:
+        return []
+    obs = [('I9', 'Inv after the step: the connection\'s source prefix is nick!~user@host of its own nick', Implies(auth, t) if not isinstance(auth, bool) else t)]
+    return obs
